@@ -475,7 +475,7 @@ def reshape(tens, shape, eps=1e-16, rmax=sys.maxsize):
                 tn.ones((1, 1, 1), dtype=cores_new[-1].dtype, device=cores_new[-1].device))
             idx_shape += 1
 
-    return torchtt._tt_base.TT(cores_new).round(eps)
+    return torchtt._tt_base.TT(cores_new).round(eps, rmax)
 
 
 def meshgrid(vectors):
